@@ -142,3 +142,27 @@ PROPS["C17"] = {"level": "fault_enumeration", "exhaustive": True,
     "level_note": "Trusted: serde_yaml value comparison as the notion of equality (bitwise for yaml/bincode, 4e-16 relative per number right after a json load, 1e-9 after resuming a json-loaded simulation). Known findings (bincode with omitted default/None fields, json with non-finite numbers) are keyed on the omitted field / the non-finite field.",
     "floors": {"quick": {"distinct_nontrivial": 300, "obs.roundtrips": 20000, "obs.checkpoints": 10000, "obs.sim_runs.LocomotiveSimulation": 20, "obs.sim_runs.ConsistSimulation": 20, "obs.sim_runs.SetSpeedTrainSim": 20, "obs.sim_runs.SpeedLimitTrainSim": 10},
                "thorough": {"distinct_nontrivial": 15000, "obs.checkpoints": 500000}}}
+
+DISP_NOTE = ("Trusted: the observer hook (altrios_core::verif_hooks, feature verif: synchronous, read-only, borrowed views), the harness's reconstruction of occupancy windows from the final dispatch paths (harness/src/mon/dispatch.rs). "
+             "Assumed: generated corridor family (5..45 gaps, 0.4-6 km links, sidings, two origins/destinations, optional lockouts, every segment with its flip) plus the shipped Taconite network with the crate's example trains; estimated-time construction must succeed for a train to take part.")
+PROPS.update({
+    "C15": {"level": "exploration",
+            "technique": "runtime monitor: full traversal of every EstTimeNet returned by make_est_times (reciprocity per link, DFS enumeration of all start-to-end walks, event sequence vs track network, time/duration checks per node and per edge)",
+            "level_text": "Every node, edge and (up to a recorded cap) every start-to-end walk of each generated estimated-time network is checked; held on all observed networks except for the listed known findings.",
+            "level_note": DISP_NOTE + " get_running_time_hours exists only in the pyo3 build; the two fields it reads are checked instead.",
+            "floors": {"quick": {"distinct_nontrivial": 100, "obs.nets": 200, "obs.walks": 20000, "obs.primary_edges": 20000},
+                       "thorough": {"distinct_nontrivial": 4000, "obs.nets": 8000}}},
+    "C04": {"level": "exploration",
+            "technique": "runtime monitor via observer hook + offline checker: every dispatcher snapshot (after advance / after rewind / end of iteration / final) scanned for simultaneous authorities and blocked-links consistency; occupancy windows reconstructed from the final dispatch paths checked pairwise (opposing, lockout, headway, order); black-box front-occupancy check on returned timed paths",
+            "level_text": "All snapshots of thousands of generated dispatches (with re-routes and rewinds observed and counted) and every pair of occupancy windows of every final plan are checked; held on all observed dispatches.",
+            "level_note": DISP_NOTE + " Transient snapshots (after advance / after rewind) are recorded, only end-of-iteration and final states are held to the exclusion rule.",
+            "floors": {"quick": {"distinct_nontrivial": 20, "obs.dispatch_ok": 150, "obs.opposing_window_pairs": 5000, "obs.follower_pairs": 5000, "obs.snapshots_end_of_iteration": 2000, "obs.snapshots_after_rewind": 20},
+                       "thorough": {"distinct_nontrivial": 800, "obs.dispatch_ok": 6000}}},
+    "C05": {"level": "exploration", "owns_aborts": True,
+            "variants": {"quick": ["rel", "chk"], "thorough": ["rel", "chk"]},
+            "technique": "runtime monitor on run_dispatch results and the hook's final snapshot (route validity, free-running lower bound per leg, iteration bound) in two builds: as shipped and with debug-assertions/overflow-checks for altrios-core (ub_checks on the get_unchecked sentinel searches); thorough tier adds Miri, AddressSanitizer and valgrind memcheck runs of the same dispatch workload",
+            "level_text": "Every returned plan is checked for completeness and validity against the network and the train's own estimated-time network; panics/aborts in either build are violations; bounded progress (outer iterations <= 200 x dispatch nodes; observed maximum recorded). Memory safety is 'no report on the executions observed' from ub_checks (all runs), Miri / ASan / memcheck (thorough).",
+            "level_note": DISP_NOTE + " Unbounded termination is restated as bounded progress. A clean sanitizer run is not a proof of memory safety.",
+            "floors": {"quick": {"distinct_nontrivial": 20, "obs.dispatch_ok": 300, "obs.legs_checked": 20000, "obs.rewinds": 20, "obs.trains_rerouted_off_the_shortest_route": 5},
+                       "thorough": {"distinct_nontrivial": 800, "obs.dispatch_ok": 12000}}},
+})
